@@ -169,6 +169,13 @@ func (d *PathDecoder) isPosInsideAttrExpr(attr *hclsyntax.Attribute, pos hcl.Pos
 		return true
 	}
 
+	if attr.Expr.Range().End.Byte < attr.Expr.Range().Start.Byte {
+		// The parser's recovery leaves the end of an unterminated
+		// expression zeroed; its "end" says nothing about the cursor
+		// (and would claim the very beginning of the file).
+		return attr.EqualsRange.End.Byte == pos.Byte
+	}
+
 	// edge case: near end (typically newline char)
 	if attr.Expr.Range().End.Byte == pos.Byte {
 		return true
